@@ -125,6 +125,68 @@ def run_rule(rep, fx, rid, cfg='default', floor=1):
               'handle_submessage does not hand a writer submessage to the readers it is for (%s)' % why, h.where(unk[0][0]) if unk else h.where())
 
 
+def run_secure_dispatch(rep, fx, rid):
+    """The same two questions on the secured path (security build only): a decoded writer submessage that names its reader goes to that reader, one with reader id UNKNOWN to
+    the reader the selecting closure found; a decoded interpreter submessage is interpreted."""
+    from rdv.core import primary_edges
+    rep.rule(rid, 'secured path dispatch: in handle_secure_submessage a decoded writer submessage naming its reader is handed to handle_writer_submessage(that reader id) behind '
+                  'confirm_local_endpoint_guid of that GUID, one with reader id UNKNOWN to the entity id of the Reader the selecting closure found (never the other way round), a '
+                  'decoded reader submessage to handle_reader_submessage, a decoded interpreter submessage to handle_interpreter_submessage, on every path of their arms')
+    h = fx.find(MR + 'handle_secure_submessage')
+    rep.analysed(h)
+    og = Origins(h, summaries=False)
+    P = Pos(h)
+    edges = list(switch_edges(h, fx, og))
+
+    def unknown_test(cond):
+        return cond[0] == 'call' and cond[1].endswith(('::eq', '::ne')) and term_has(cond, lambda x: x[0] == 'const' and str(x[2]).endswith('EntityId::UNKNOWN')) and \
+            term_has(cond, lambda x: x[0] == 'call' and x[1].endswith('receiver_entity_id'))
+    unk = [(s_, t_) for s_, t_, cond, lab in edges if unknown_test(cond) and lab is cond[1].endswith('::eq')]
+    named = [(s_, t_) for s_, t_, cond, lab in edges if unknown_test(cond) and lab is not cond[1].endswith('::eq')]
+    hand = [(bb, og.of_operand(t['args'][1], bb, 'term')) for bb, t in h.calls() if call_matches(t, 'MessageReceiver::handle_writer_submessage')]
+    bad = []
+    if len(unk) != 1 or len(named) != 1 or len(hand) < 2:
+        bad.append('no test of the decoded reader id against UNKNOWN with a hand-over on both sides')
+    else:
+        for bb, a in hand:
+            from_named = P.can_reach((named[0][1], 0), (bb, 'term'), avoid_edges=unk)
+            from_unk = P.can_reach((unk[0][1], 0), (bb, 'term'), avoid_edges=named)
+            is_named_id = a[0] == 'call' and a[1].endswith('receiver_entity_id')
+            is_found_id = term_has(a, lambda x: x[0] == 'call' and x[1].endswith('::find'))
+            if from_named and not from_unk and not is_named_id:
+                bad.append('a submessage naming its reader is handed to %s' % term_str(a)[:50])
+            if from_unk and not from_named and not is_found_id:
+                bad.append('a submessage with reader id UNKNOWN is handed to %s instead of the reader found' % term_str(a)[:50])
+        # the named side is gated by the confirmation of that very GUID
+        conf = [(s_, t_) for s_, t_, cond, lab in edges if lab is True and cond[0] == 'call' and cond[1].endswith('confirm_local_endpoint_guid') and
+                term_has(cond, lambda x: x[0] == 'call' and x[1].endswith('receiver_entity_id'))]
+        for bb, a in hand:
+            if a[0] == 'call' and a[1].endswith('receiver_entity_id') and (not conf or not P.every_path_passes(None, (bb, 'term'), via_edges=conf, from_entry=True)):
+                bad.append('the named reader gets the submessage without its GUID having been confirmed for the crypto handle')
+    rep.check(not bad, rid, 'handle_secure_submessage/writer-dispatch', 'named => that reader id (confirmed); UNKNOWN => the reader found',
+              'handle_secure_submessage does not hand a decoded writer submessage to the reader it is for (%s)' % '; '.join(bad[:2]), h.where(unk[0][0]) if unk else h.where())
+    # Reader / Interpreter arms
+    pe = primary_edges(h, edges)
+    for kind, callee in (('Reader', 'MessageReceiver::handle_reader_submessage'), ('Interpreter', 'MessageReceiver::handle_interpreter_submessage')):
+        arm = [(s_, t_) for s_, t_, cond, lab in pe if lab == kind and cond[0] == 'discr' and 'DecodedSubmessage' in str(cond[2] if len(cond) > 2 else '')]
+        sites = [(bb, 'term') for bb, t in h.calls() if call_matches(t, callee) and term_has(og.of_operand(t['args'][1], bb, 'term'), lambda x: x[0] == 'variant' and x[1] == kind)]
+        ok = len(arm) >= 1 and bool(sites)
+        if ok and kind == 'Interpreter':
+            ok = not any(P.can_reach((t_, 0), (r, 'term'), avoid_pos=sites) for s_, t_ in arm for r in h.return_blocks())
+        if ok and kind == 'Reader':
+            # behind the confirmation; the refusal side only logs
+            conf_r = [(s_, t_) for s_, t_, cond, lab in edges if lab is True and cond[0] == 'call' and cond[1].endswith('confirm_local_endpoint_guid')]
+            ok = any(P.can_reach((c_t, 0), sites[0]) for _, c_t in conf_r) and all(P.every_path_passes(None, s_, via_edges=conf_r, from_entry=True) for s_ in sites)
+            for c_s, c_t in conf_r:
+                if P.can_reach((arm[0][1], 0), (c_s, 'term')) and P.can_reach((c_t, 0), sites[0]):
+                    if any(P.can_reach((c_t, 0), (r, 'term'), avoid_pos=sites) for r in h.return_blocks()):
+                        ok = False
+        rep.check(ok, rid, 'handle_secure_submessage/%s' % kind, 'decoded %s submessage => %s on every path of its arm%s' % (kind, callee.rsplit('::', 1)[-1], ' once the handle is confirmed' if kind == 'Reader' else ''),
+                  'handle_secure_submessage does not hand a decoded %s submessage to %s: %s' % (kind, callee.rsplit('::', 1)[-1],
+                                                                                              'INFO_TS / INFO_DST / INFO_SRC inside a protected message are ignored' if kind == 'Interpreter' else
+                                                                                              'no protected ACKNACK reaches a Writer'), h.where())
+
+
 def run_kinds(rep, fx, rid, cfg='default', prefix=None, declare=None):
     """Each kind of submessage reaches the handler of the entity it was dispatched to."""
     from rdv.core import primary_edges
